@@ -359,6 +359,7 @@ fn spawn_async_ao_list_in_task'''),
 ''', ''),
     ],
     'U4l': [
+        ('error-of-a-stage-in-its-own-subshell-ends-the-shell', 'brush-core/src/interp.rs', "            Err(error) if !run_in_current_shell => {", "            Err(error) if !run_in_current_shell && false => {"),
         ('stage-drops-errexit-exemption', IN, '''        if !run_in_current_shell {
             // Make sure that all commands in the pipeline are in the same process group.''', '''        if !run_in_current_shell {
             cmd_params.suppress_errexit = false;
